@@ -411,6 +411,8 @@ func init() {
 			c.min("R-KEYMATCH/K1", 4)
 			c.ruleHashedValue()
 			c.ruleNilValue("pkg/trie/inmemory/proof")
+			c.ruleThresh("pkg/trie/inmemory/proof", "pkg/trie/node")
+			c.min("R-THRESH", 4)
 			entries := []*ssa.Function{c.fn("pkg/trie/inmemory/proof", "Verify")}
 			c.ruleNoPanic("R-NOPANIC", entries, map[string]string{
 				"Decode#1":           "default of the variant switch; every variant decodeHeaderByte can return has a case (R-VARIANT/exhaustive, C07)",
@@ -530,4 +532,38 @@ func (c *Ctx) ruleProofHash() {
 			c.ob("R-VERIFYCMP", key, r.Pos(), false, "a success return of Verify is not dominated by the comparison of the expected value with the value found in the proof trie")
 		}
 	}
+}
+
+func init() {
+	register("C38", "walker/prefix rules on the key-listing path + resolved call chain from the RPC (R-KEYMATCH/K2, R-PREFIX, R-PREORDER(addAllKeys), R-CALLCHAIN)",
+		"Decides: state_getKeysPaged/GetKeysWithPrefix reach (*InMemoryTrie).GetKeysWithPrefix through the resolved call chain; the prefix walker only descends through a partial key that is a prefix of the search prefix (no panic, no unrelated subtree); the byte prefix reaches the walker as exactly 2*len nibbles (the trimmed trailing zero nibble is the recorded finding D3); keys of a subtree are appended in pre-order (the branch's own key first), which is ascending byte order. "+
+			"Not decided: the paging arithmetic over hex strings in the RPC module.",
+		"none beyond the Go type checker", "DESIGN.md §3 R-KEYMATCH, R-PREFIX; §4 C38",
+		func(c *Ctx) {
+			c.load("pkg/trie/inmemory", "pkg/trie/node", "dot/state", "dot/rpc/modules")
+			c.ruleKeyMatch([]walkerSpec{trieWalkers[5]})
+			c.min("R-KEYMATCH/K2", 1)
+			c.rulePrefix("(*InMemoryTrie).GetKeysWithPrefix")
+			c.min("R-PREFIX", 1)
+			c.rulePreorder("addAllKeys")
+			c.min("R-PREORDER", 1)
+			// call chain
+			c.doc("R-CALLCHAIN", "StateModule.GetKeysPaged -> StorageAPI.GetKeysWithPrefix -> (*InmemoryStorageState).GetKeysWithPrefix -> TrieState.GetKeysWithPrefix -> (*InMemoryTrie).GetKeysWithPrefix")
+			chain := [][2]string{{"dot/rpc/modules", "(*StateModule).GetKeysPaged"}, {"dot/state", "(*InmemoryStorageState).GetKeysWithPrefix"}}
+			for _, ch := range chain {
+				f := c.fn(ch[0], ch[1])
+				if f == nil {
+					continue
+				}
+				found := false
+				eachInstr(f, func(_ *ssa.BasicBlock, _ int, in ssa.Instruction) {
+					if call, ok := in.(*ssa.Call); ok {
+						if fn := calleeFunc(&call.Call); fn != nil && fn.Name() == "GetKeysWithPrefix" {
+							found = true
+						}
+					}
+				})
+				c.ob("R-CALLCHAIN", ch[0]+"."+ch[1]+"->GetKeysWithPrefix", f.Pos(), found, ch[1]+" must obtain the keys through GetKeysWithPrefix")
+			}
+		})
 }
